@@ -63,3 +63,10 @@ try:
         pass
 except ImportError:
     pass
+
+
+def structural():
+    """C04: the handler of the selected command is invoked with the arguments parsed for THAT command line - nothing a run
+    computes is kept on the application, its commands or their configurations"""
+    from .frame_written import written_only_while_built
+    return written_only_while_built("C04")
